@@ -162,6 +162,21 @@ use crate::builtins::core::PartialDate;
 use crate::options::ArithmeticOverflow;
 use alloc::string::{String, ToString};
 
+/// The hook reads the era whether the resolved record keeps it as `Era` or as `Option<Era>`.
+trait EraName {
+    fn era_name(self) -> Option<String>;
+}
+impl EraName for crate::builtins::core::calendar::Era {
+    fn era_name(self) -> Option<String> {
+        Some(self.0.as_str().to_string())
+    }
+}
+impl EraName for Option<crate::builtins::core::calendar::Era> {
+    fn era_name(self) -> Option<String> {
+        self.map(|e| e.0.as_str().to_string())
+    }
+}
+
 /// `ResolvedCalendarFields::try_from_partial(partial, overflow, Date)` → (era code, year, month code, day):
 /// the arguments `Calendar::date_from_partial` hands to the calendrical library.
 pub fn resolve_calendar_fields(
@@ -170,7 +185,7 @@ pub fn resolve_calendar_fields(
 ) -> TemporalResult<(Option<String>, i32, String, u8)> {
     let r = ResolvedCalendarFields::try_from_partial(partial, overflow, ResolutionType::Date)?;
     Ok((
-        r.era_year.era.map(|e| e.0.as_str().to_string()),
+        r.era_year.era.era_name(),
         r.era_year.year,
         r.month_code.as_str().to_string(),
         r.day,
